@@ -208,6 +208,10 @@ def _scan(ctx, u, f, name, algo, role):
         tf, tt = single(sv.value_ast(vf) or ()), single(sv.value_ast(vt) or ())
         kf, kt = render(tf), render(tt)
         m1 = re.match(r'^\((.+)\.prev_civil_sec \+ int:1\)$', kf)
+        if m1 is None and tf is not None and tf[0] == 'int' and tf[2].get('') == 1:
+            syms_ = [k_ for k_ in tf[2] if k_]
+            if len(syms_) == 1 and tf[2][syms_[0]] == 1:
+                m1 = re.match(r'^(.+)\.prev_civil_sec$', syms_[0])      # X.prev_civil_sec + 1 as a linear form
         m2 = re.match(r'^(.+)\.civil_sec$', kt)
         same = bool(m1 and m2 and m1.group(1) == m2.group(1))
         ctx.check(same, 'C11-sib', '%s: from = X.prev_civil_sec + 1, to = X.civil_sec for one entry X' % short, xf,
